@@ -104,7 +104,7 @@ Proof.
     - intros gl gl2 n0 o e [d [E H]] He. exists (e :: d ++ [TStart n0 o]). split.
       + cbn. rewrite E. cbn. rewrite <- app_assoc. reflexivity.
       + cbn. rewrite rev_app_distr. cbn. apply balanced_bracket; auto.
-    - intros gl k _. split; [exact I|apply same_trace_B; reflexivity].
+    - intros gl n1 o1 _ _. split; [exact I|apply same_trace_B; reflexivity].
     - intros gl u _. split; [exact I|apply same_trace_B; reflexivity].
     - intros gl n0 k c _ _. destruct c; exact I.
     - intros gl n0 k c _ _. split; [exact I|apply same_trace_B; reflexivity].
